@@ -335,7 +335,9 @@ def run(ctx):
     for i in range(n):
         t = gen_type(rng, rng.randint(0, ctx.pick(3, 4)))
         v = G.gen_value(rng, t)
-        judge(ctx, t, v, rng.getrandbits(32) if i % 2 else None)
+        seed_ = rng.getrandbits(32) if i % 2 else None
+        judge(ctx, t, v, seed_)
+        ctx.remember(judge, ctx, t, v, seed_)
     # recorded arguments and storage parts of the mainnet corpus under their real annotated types (records with named fields,
     # entrypoint unions, maps of records)
     from rv.gen import corpus as C
@@ -343,6 +345,7 @@ def run(ctx):
         if ctx.mine(k) and T.packable(t):
             ctx.count('corpus_values')
             judge(ctx, t, v, None, C.annot_fn(texpr))
+    ctx.run_again()
     ctx.require('python_roundtrips', 100)
     ctx.require('contract_data_roundtrips', 50)
     ctx.require('layouts_checked', 50)
